@@ -320,7 +320,30 @@ func (s *State) promote(v Value) Value {
 	s.promoted[p.Cell] = ref
 	hp := s.resolve(p)
 	s.store(hp, Value{Typ: p.Typ, L: cur.L})
+	s.zeroOnceState(p.Typ, ref)
 	return Value{Typ: v.Typ, L: []Term{ref}}
+}
+
+// zeroOnceState: a sync.Once embedded by value in a newly allocated struct has not run yet
+// (ghost state 0). Mutexes need no such fact: acquiring a lock assumes it was free.
+func (s *State) zeroOnceState(t types.Type, ref Term) {
+	named, ok := t.(*types.Named)
+	if !ok {
+		return
+	}
+	stt, ok := named.Underlying().(*types.Struct)
+	if !ok {
+		return
+	}
+	for i := 0; i < stt.NumFields(); i++ {
+		ft, ok := stt.Field(i).Type().(*types.Named)
+		if !ok || ft.Obj().Pkg() == nil || ft.Obj().Pkg().Path() != "sync" || ft.Obj().Name() != "Once" {
+			continue
+		}
+		name := "LK_H_" + typeKey(ft)
+		la := s.heapArr(name, SArr)
+		s.setHeap(name, Store(la, s.enc.subObj("H_"+typeKey(named)+"."+stt.Field(i).Name(), ref), I(0)))
+	}
 }
 
 func (s *State) assume(t Term) {
@@ -431,6 +454,12 @@ func rangeAxiom(t Term, levels int, sort, lo, hi, strictHi string) string {
 	body := cs[0]
 	if len(cs) > 1 {
 		body = "(and " + strings.Join(cs, " ") + ")"
+	}
+	if strictHi != "" {
+		// only objects that exist when the version comes into being are constrained: the fields of
+		// a not-yet-allocated object are whatever its allocation (by this function or, in the same
+		// heap version, by a callee that modifies nothing else) makes them
+		body = fmt.Sprintf("(=> (< x %s) %s)", strictHi, body)
 	}
 	return fmt.Sprintf("(forall %s (! %s :pattern (%s)))", binder, body, sel)
 }
@@ -782,8 +811,9 @@ func (e *Enc) subObj(path string, obj Term) Term {
 		e.declareFun(fn, []string{"Int"}, "Int")
 		e.declareFun("inv_"+fn, []string{"Int"}, "Int")
 		e.declareFun("subtag", []string{"Int"}, "Int")
+		e.declareFun("subowner", []string{"Int"}, "Int")
 		e.nsub++
-		e.addAxiom(fmt.Sprintf("(forall ((x Int)) (! (and (< (%s x) 0) (= (inv_%s (%s x)) x) (= (subtag (%s x)) %d)) :pattern ((%s x))))", fn, fn, fn, fn, e.nsub, fn))
+		e.addAxiom(fmt.Sprintf("(forall ((x Int)) (! (and (< (%s x) 0) (= (inv_%s (%s x)) x) (= (subowner (%s x)) x) (= (subtag (%s x)) %d)) :pattern ((%s x))))", fn, fn, fn, fn, fn, e.nsub, fn))
 	}
 	return app(SInt, fn, obj)
 }
